@@ -441,6 +441,7 @@ func genSrvCfg(rt *rapid.T, modes []string) SrvCfg {
 		Schemes:   rapid.SampledFrom(cfgLattice.Schemes).Draw(rt, "schemes"),
 		Register:  rapid.SampledFrom([]string{"echo", "echo", "assign", "assign", "error"}).Draw(rt, "register"),
 		Mode:      rapid.SampledFrom(modes).Draw(rt, "mode"),
+		CtxErr:    rapid.Bool().Draw(rt, "ctxErr"),
 	}
 	if cfg.Transport == "tcp-tls" {
 		cfg.TLSVia = rapid.SampledFrom([]string{"", "", "getcertificate", "getconfig"}).Draw(rt, "tlsVia")
